@@ -9,6 +9,11 @@
 //	sup   -> lintcmd.parseDirectives + (line|file)Ignore.match   (via verif hook)
 //	fi    -> lintcmd.success? + lintcmd.filterIgnored            (via verif hook)
 //	u1k   -> unused.Graph + SerializedGraph.Results on a synthetic package (no hook)
+//	pdf   -> analysis/lint.ParseDirectives + runner.serializeDirective (via verif hook) on a
+//	         whole generated source file: the SerializedDirectives of the file, in comment order
+//	src   -> (no code of /repo) the facts go/ast.NewCommentMap reads of the same file — node list
+//	         in ast.Inspect order, comment groups, raw and //line-adjusted positions — in the
+//	         input format of the model's op `att`
 package main
 
 import (
@@ -295,6 +300,15 @@ func step(line string) (string, error) {
 				hexs(d.Category), hexs(d.Message), sev(d.Severity))
 		}
 		return strings.Join(parts, " "), nil
+	case "pdf", "src":
+		text, err := t.str()
+		if err != nil || len(t.t) != 0 {
+			return "", errBad
+		}
+		if op == "pdf" {
+			return pdf(text), nil
+		}
+		return srcFacts(text), nil
 	case "u1k":
 		nfiles, err := t.nat()
 		if err != nil {
@@ -416,6 +430,112 @@ func u1k(nfiles, nlines int, sdirs []runner.SerializedDirective) (string, error)
 		out = append(out, hexs(k.file), strconv.Itoa(k.line))
 	}
 	return strings.Join(out, " "), nil
+}
+
+// The generated file is parsed under this name; relative file names of //line directives are
+// resolved against its directory by go/scanner, and only base names are printed.
+const srcName = "/c10/x.go"
+
+func posStr(p token.Position) string {
+	return hexs(filepath.Base(p.Filename)) + " " + strconv.Itoa(p.Line) + " " + strconv.Itoa(p.Column)
+}
+
+// pdf: the real lint.ParseDirectives followed by the real runner.serializeDirective.
+func pdf(text string) string {
+	fset := token.NewFileSet()
+	f, err := parser.ParseFile(fset, srcName, text, parser.ParseComments)
+	if err != nil {
+		return "parse-error"
+	}
+	dirs := lint.ParseDirectives([]*ast.File{f}, fset)
+	// the comment map is a Go map: the order of the result is not specified
+	sort.SliceStable(dirs, func(i, j int) bool { return dirs[i].Directive.Pos() < dirs[j].Directive.Pos() })
+	out := []string{strconv.Itoa(len(dirs))}
+	for _, d := range dirs {
+		sd := runner.VerifC10SerializeDirective(d, fset)
+		out = append(out, hexs(sd.Command), strconv.Itoa(len(sd.Arguments)))
+		for _, a := range sd.Arguments {
+			out = append(out, hexs(a))
+		}
+		out = append(out, posStr(sd.DirectivePosition), posStr(sd.NodePosition))
+	}
+	return strings.Join(out, " ")
+}
+
+// srcFacts prints what go/ast.NewCommentMap(fset, f, f.Comments) reads: the nodes in the
+// order of ast.Inspect without comments (go/ast.nodeList), for each Pos/End offsets, the
+// position of Pos() raw and adjusted, the adjusted line of End() and whether the node is a
+// *File, *Field, Decl, Spec or Stmt; and the comment groups with the same data per comment.
+func srcFacts(text string) string {
+	fset := token.NewFileSet()
+	f, err := parser.ParseFile(fset, srcName, text, parser.ParseComments)
+	if err != nil {
+		return "parse-error"
+	}
+	names := []string{}
+	idx := map[string]int{}
+	name := func(n string) string {
+		n = filepath.Base(n)
+		i, ok := idx[n]
+		if !ok {
+			i = len(names)
+			idx[n] = i
+			names = append(names, n)
+		}
+		return strconv.Itoa(i)
+	}
+	bad := false
+	srcpos := func(p token.Pos) string {
+		if !p.IsValid() {
+			bad = true
+			return ""
+		}
+		raw := fset.PositionFor(p, false)
+		adj := fset.PositionFor(p, true)
+		return name(raw.Filename) + " " + strconv.Itoa(raw.Line) + " " + strconv.Itoa(raw.Column) + " " +
+			name(adj.Filename) + " " + strconv.Itoa(adj.Line) + " " + strconv.Itoa(adj.Column)
+	}
+	off := func(p token.Pos) string {
+		if !p.IsValid() {
+			bad = true
+			return "0"
+		}
+		return strconv.Itoa(fset.PositionFor(p, false).Offset)
+	}
+	var nodes []string
+	ast.Inspect(f, func(n ast.Node) bool {
+		switch n.(type) {
+		case nil, *ast.CommentGroup, *ast.Comment:
+			return false
+		}
+		imp := "0"
+		switch n.(type) {
+		case *ast.File, *ast.Field, ast.Decl, ast.Spec, ast.Stmt:
+			imp = "1"
+		}
+		nodes = append(nodes, off(n.Pos())+" "+off(n.End())+" "+srcpos(n.Pos())+" "+strconv.Itoa(fset.Position(n.End()).Line)+" "+imp)
+		return true
+	})
+	var groups []string
+	for _, cg := range f.Comments {
+		g := []string{strconv.Itoa(len(cg.List))}
+		for _, c := range cg.List {
+			g = append(g, off(c.Pos()), off(c.End()), srcpos(c.Pos()), strconv.Itoa(fset.Position(c.End()).Line), hexs(c.Text))
+		}
+		groups = append(groups, strings.Join(g, " "))
+	}
+	if bad {
+		return "nopos"
+	}
+	out := []string{"att", strconv.Itoa(len(names))}
+	for _, n := range names {
+		out = append(out, hexs(n))
+	}
+	out = append(out, strconv.Itoa(len(nodes)))
+	out = append(out, nodes...)
+	out = append(out, strconv.Itoa(len(groups)))
+	out = append(out, groups...)
+	return strings.Join(out, " ")
 }
 
 // nonDefault prints the names of the analyzers of cmd/staticcheck that are not enabled by
